@@ -575,6 +575,18 @@ func c06RunItems(c *core.Ctx, items []c06Item, web bool) {
 			}
 			c.Event("engine_requests_from_a_tenant_of_a_public_suffix", 1)
 		}
+		uniMode := web && !suffixMode && c.Rng.Intn(6) == 0
+		target := "http://ads.com/page"
+		if uniMode {
+			// The advertised host is written in its own script (rules and
+			// request alike): the indexed window of the patterns holds
+			// characters of several bytes.
+			for i := range lt {
+				lt[i] = strings.ReplaceAll(strings.ReplaceAll(lt[i], "ads.", "\u0440\u0435\u043a."), "://a", "://\u0440")
+			}
+			target = "http://\u0440\u0435\u043a.com/page"
+			c.Event("engine_requests_for_a_host_written_in_cyrillic", 1)
+		}
 		if web {
 			eng := urlfilter.NewEngine(util.Storage(lt...))
 			src := "http://site.com/"
@@ -592,8 +604,15 @@ func c06RunItems(c *core.Ctx, items []c06Item, web bool) {
 				src = []string{"http://SITE.com/", "HTTP://Site.COM/Landing", "http://site.COM"}[c.Rng.Intn(3)]
 				c.Event("engine_requests_with_capital_letters_in_the_referrer", 1)
 			}
-			req := rules.NewRequest("http://ads.com/page", src, rules.TypeDocument)
-			if suffixMode {
+			req := rules.NewRequest(target, src, rules.TypeDocument)
+			if uniMode {
+				sel := eng.MatchRequest(req).GetBasicResult()
+				c.Eval(1)
+				if got := util.Class(sel); got != want {
+					c.Violation("class-mismatch:Engine.MatchRequest(non-ASCII host)", nil, c06Witness{Via: "Engine.MatchRequest", Rules: lt, Got: got, Reference: want},
+						"Engine.MatchRequest for %s referred by %s over lists %q: verdict %s, reference %s", target, src, lt, got, want)
+				}
+			} else if suffixMode {
 				// (the rule texts differ from those of the items: the class is
 				// judged, not the identity of the selected rule)
 				sel := eng.MatchRequest(req).GetBasicResult()
